@@ -233,21 +233,24 @@ def check(an, rep, tier):
             want_prot = ast.dump(ast.Subscript(
                 value=ast.Name(id=prot, ctx=ast.Load()), slice=kx,
                 ctx=ast.Load()))
-            for t, pol in paths.guards_of(fn.node, s_):
-                if not (pol and isinstance(t, ast.BoolOp) and
-                        isinstance(t.op, ast.Or)):
-                    continue
-                none_ok = differs = False
-                for v_ in t.values:
-                    for l, oc, r, ln, rn in paths.cmp_facts([(v_, True)]):
-                        if oc is ast.Is and isinstance(ln, ast.Name) and \
-                                ln.id == prot and \
-                                isinstance(rn, ast.Constant) and \
-                                rn.value is None:
-                            none_ok = True
-                        if oc is ast.NotEq and l == dE and r == want_prot:
-                            differs = True
-                good = good or (none_ok and differs)
+
+            def atomise(node):
+                # N = (i_non_zero is None), D = (E != i_non_zero[k])
+                if isinstance(node, ast.Compare) and len(node.ops) == 1:
+                    l, r, op = node.left, node.comparators[0], \
+                        type(node.ops[0])
+                    if op in (ast.Is, ast.IsNot) and \
+                            isinstance(l, ast.Name) and l.id == prot and \
+                            isinstance(r, ast.Constant) and r.value is None:
+                        return ('N', op is ast.Is)
+                    pair = {ast.dump(l), ast.dump(r)}
+                    if pair == {dE, want_prot} and op in (ast.Eq, ast.NotEq):
+                        return ('D', op is ast.NotEq)
+                return None
+            from .. import rules_proto as _P
+            gs_ = _P.norm_guards(prog, fn, s_)
+            good = bool(paths.entails(gs_, atomise,
+                                      lambda a: a['N'] or a['D']))
         ok = ok and good
     rep.add('P-zero', 'tensors.const', 'zero entry stored only where the '
             'zero index differs from the protected index',
